@@ -7,7 +7,7 @@ HARNESS = "b_codecB_p2pwire"
 PKG = "p2pserver/message/types"
 MAX_PAYLOAD_LEN = 30 * 1024 * 1024 - 24
 REJECT = ("magic", "toolong", "checksum", "eof", "err")
-KINDS = ("base", "trunc", "byte", "count", "trail", "magic", "length", "checksum", "header", "random", "randomtrail")
+KINDS = ("base", "trunc", "byte", "count", "trail", "magic", "length", "checksum", "header", "random", "randomtrail", "wrap")
 
 
 def run_cases(ctx, binary, cases, tag):
